@@ -215,7 +215,8 @@ Definition w_dump_parse_all (a : list Z) : list Z :=
 
 (* truncation sweep: [idx; skip present; skip; count present; count; k0; k1; file...] -> for every cut k in [k0, k1):
    digest of parse_all(skip, count) and of parse_msg(idx) on the first k octets: [status; messages; hash; status; hash] *)
-Definition hmix (h x : Z) : Z := (h * 131 + x + 7) mod 2147483629.
+(* cheap mixing: multiplication by an odd constant, kept to 30 bits (the offset keeps every summand positive) *)
+Definition hmix (h x : Z) : Z := Z.land (h * 131 + x + 70001) 1073741823.
 Definition digest (l : list Z) : Z := fold_left hmix l 17.
 Definition dig_pall (r : res pall) : list Z :=
   let e := enc_pall r in
